@@ -983,7 +983,19 @@ impl Gen {
             Some(e) => e,
             None => self.expr(t, 3),
         };
-        out.push(json!({"k": "P", "e": e}));
+        // one print! call with two or three arguments (wide types preferred: 128-bit arguments are formatted through
+        // scratch buffers of their own) as often as a plain one
+        if self.rng.chance(50) {
+            let mut es = vec![e];
+            for _ in 0..(1 + self.rng.below(2)) {
+                let t2 = if self.rng.chance(50) { t } else { self.scalar_type() };
+                self.calls_left = 0;
+                es.push(self.expr(t2, 2));
+            }
+            out.push(json!({"k": "PP", "es": es}));
+        } else {
+            out.push(json!({"k": "P", "e": e}));
+        }
     }
     fn call_stmt(&mut self, out: &mut Vec<Value>) -> bool {
         if self.fns.is_empty() {
